@@ -115,7 +115,8 @@ def make_action_labels(rng, m):
 
 def random_spec(rng, family="any", n_max=8, a_max=4, label_kind=None, uniform_actions=False,
                 allow_zero_entries=True, allow_live_absorbing=True, gamma=None,
-                reward_sign=None, min_states=1, allow_dup_actions=True, allow_implicit=True):
+                reward_sign=None, min_states=1, allow_dup_actions=True, allow_implicit=True,
+                near_absorbing=False):
     """families:
        any        gamma<1, arbitrary structure, rewards of either sign
        proper     every policy reaches an absorbing state w.p.1 (hidden rank order), any gamma
@@ -259,6 +260,21 @@ def random_spec(rng, family="any", n_max=8, a_max=4, label_kind=None, uniform_ac
             sp.meta.setdefault("dup", []).append((repr(s), repr(a0), repr(a1)))
             dup_done = rng.random() < 0.5
 
+    if near_absorbing and rng.random() < 0.35:
+        # a state that ALMOST self-loops (probability 1 - d) with zero rewards: not absorbing by definition
+        cand = [i for i in idx if i not in absorbing and i not in trap]
+        others = [j for j in idx if j not in trap]
+        if cand and len(others) >= 2:
+            i = rng.choice(cand)
+            s = states[i]
+            d = rng.choice([2.0 ** -20, 1e-6, 1e-9, 2.0 ** -40])
+            for a in sp.acts[s]:
+                t = states[rng.choice([j for j in others if j != i])]
+                sp.P[(s, a)] = [(s, 1.0 - d), (t, d)]
+                sp.kind[(s, a)] = "dict"
+                sp.R[(s, a, s)] = 0.0
+                sp.R[(s, a, t)] = 0.0
+            sp.meta["near_absorbing"] = repr(s)
     sp.flag = {states[i] for i in absorbing if abs_kind[i] in ("zero", "live")}
     sp.meta["abs_kinds"] = sorted(abs_kind.values())
     sp.meta["trap"] = len(trap)
